@@ -12,7 +12,7 @@ var logic string
 func Family() *rx.Family {
 	return &rx.Family{
 		Name: "s3", Path: "gno.land/r/verif/s3", Logic: logic,
-		Ops: "abcdefghlijk",
+		Ops: "bcdeafghlijk",
 		Desc: map[byte]string{'a': "s[0]++", 'b': "t[0]+=10", 'c': "s=append(s,x) (within cap if room)", 'd': "t=append(t[:len:len],x) (over cap)", 'e': "s=s[1:]",
 			'f': "t=t[:cap(t)]", 'g': "t=s", 'h': "copy(s,t)", 'i': "s=s[:1]", 'j': "s=nil", 'k': "s,t=t,s", 'l': "base[1]+=100"},
 		Reset: reset, Op: op, Dump: dump,
